@@ -57,6 +57,14 @@ class Faulty:
         self.counter.tick()
         yield self.inner
 
+    def __bool__(self):
+        # transparent to truth tests: code under test may treat an empty renderable ("" or an
+        # empty Text) specially
+        try:
+            return bool(self.inner)
+        except Exception:
+            return True
+
 
 def unwrap(r):
     while isinstance(r, Faulty):
